@@ -2,6 +2,7 @@ package hx
 
 import (
 	"fmt"
+	"strings"
 	"sync"
 
 	"github.com/inbucket/inbucket/v3/pkg/stringutil"
@@ -42,6 +43,13 @@ func findCollisions() {
 			}
 		}
 	}
+}
+
+// LongMates are two distinct names of more than 64 bytes that share their first 64 bytes (a
+// full-length local part on two domains): whatever derives a key from a name must use all of it.
+func LongMates() []string {
+	l := strings.Repeat("l", 64)
+	return []string{l + "@alpha.example.com", l + "@bravo.example.com"}
 }
 
 // Bucket3 returns three names whose hashes share the first 12 bits.
